@@ -20,7 +20,14 @@ Verdict(key, R, e) ==
 Judge(e) ==
   IF e.budget = 1 THEN Verdict("skip-step-budget", InitState(<<>>, 0), e)
   ELSE IF "panic" \in DOMAIN e THEN Verdict("panic", InitState(<<>>, 0), e)
-  ELSE LET R == Result(e.prog, Fuel) IN
+  ELSE LET R == IF "cut" \in DOMAIN e
+                THEN \* two lines: the first is run to the end of its input (a scanner that meets the end of the
+                     \* line there is what it is in the VM: the end of the input); what remains is the state the
+                     \* second line starts from.  Serialising and deserialising in between must change nothing.
+                     LET S1 == Run(InitState(SubSeq(e.prog, 1, e.cut), Fuel)) IN
+                     IF Stopped(S1) THEN S1
+                     ELSE Run([S1 EXCEPT !.inp = SubSeq(e.prog, e.cut + 1, Len(e.prog)), !.fuel = Fuel])
+                ELSE Result(e.prog, Fuel) IN
     IF R.skip # "" THEN Verdict(R.skip, R, e)
     ELSE IF R.err = ""
     THEN IF /\ e.errat = -1 /\ e.fatal = 0 /\ e.out = R.out
